@@ -82,3 +82,17 @@ From WalModel.proofs Require GeneratedTies.
 Theorem trace_separator_is_the_repositorys : Generated.scope_separator_gen = String "^"%char EmptyString.
 Proof. exact GeneratedTies.trace_separator_is_the_repositorys. Qed.
 Print Assumptions trace_separator_is_the_repositorys.
+
+(** a load without an id: the id is t<number of loaded traces>; when it is taken the load fails, nothing changes *)
+From WalModel.proofs Require LoadGen.
+Theorem load_without_id_uses_the_generated_id : forall file st,
+  load_m file None st = load_m file (Some (LoadGen.generated_id st)) st.
+Proof. exact LoadGen.load_without_id_uses_the_generated_id. Qed.
+Print Assumptions load_without_id_uses_the_generated_id.
+Theorem a_taken_generated_id_fails_the_load : forall file st,
+  amem (LoadGen.generated_id st) (c_traces (st_cont st)) = true -> load_m file None st = Er EEval st.
+Proof. exact LoadGen.generated_id_taken_fails. Qed.
+Print Assumptions a_taken_generated_id_fails_the_load.
+Theorem generated_id_is : forall st, LoadGen.generated_id st = ("t" ++ dec_of_Z (zlen (c_traces (st_cont st))))%string.
+Proof. reflexivity. Qed.
+Print Assumptions generated_id_is.
